@@ -852,6 +852,24 @@ def namespaceOp (run : Run) (n : Nat) (id : Nat) (key : String) (members : List 
     | Option.none => raise (errOther "TypeError")
   | op' => unionOver run op' (members.map Prod.snd) o
 
+/-- consumption of the generator an `Iter` evaluates to.  A member that is itself an `Iter`
+    (the pairs of `evaluatable_dict`) yields a generator in turn, consumed in place by the
+    consumer (`dict`): same order, but outside any request of the inner `Iter`.
+    Fuel bounds the nesting depth. -/
+def consumeIter (run : Run) (o : V) : Nat → List Expr → M (List V)
+  | _, [] => pure []
+  | 0, _ => outOfFuel
+  | d + 1, y :: rest => do
+    let v ← (match y with
+      | .iter yid ys => do
+        emit (.req "evaluate" yid)
+        let vs ← consumeIter run o d ys
+        pure (V.list vs)
+      | _ => run .evaluate y o)
+    let vs ← consumeIter run o (d + 1) rest
+    pure (v :: vs)
+termination_by d l => (d, l.length)
+
 /-! #### The interpreter proper -/
 
 /-- one node's own operation (`__labrea_evaluate__` etc.), children through `run` -/
@@ -873,7 +891,7 @@ def nodeOp (env : Env) (run : Run) (n : Nat) (op : Op) (e : Expr) (o : V) : M V 
       | .iter xid es => do
         emit (.req "evaluate" xid)
         let fn ← run .evaluate f o
-        let vs ← mapM' (fun y => run .evaluate y o) es
+        let vs ← consumeIter run o n es
         call env fn [.list vs] []
       | .map xid y its => do
         let asg ← pseudo .evaluate xid (mapAssignments run its o)
